@@ -12,6 +12,7 @@ import Peppi.Lemmas.GenCor
 import Peppi.Lemmas.GenExample
 import Peppi.Lemmas.Longer
 import Peppi.Lemmas.GeckoU
+import Peppi.Lemmas.Wrapped
 set_option linter.unusedVariables false
 namespace Peppi.Props.C08
 
@@ -143,5 +144,24 @@ theorem midRun_geckoU (t : List (Nat × Nat)) (sl : Nat) (s : Start) (g : GeckoB
       { st := { (ps0T t sl s).st with splitRaw := [], splitActual := g.total, gecko := some (Gecko.mk (catData g.all) g.total) },
         bytesRead := (ps0T t sl s).bytesRead + (g.encU us).length } :=
   _root_.Peppi.midRun_geckoU t sl s g us hfull hlast htot hsz hus
+
+/- from `Peppi.Lemmas.Wrapped` -/
+open Extracted in
+theorem parseEvent_wrapped_unknown (ps : ParseState) (c : Nat) (data rest : Bytes) (actual : Nat)
+    (hc : c < 256) (hunk : isKnown c = false) (hd : data.length = 512) (ha : actual ≤ 512)
+    (hsz : sizeOfEv ps.st.sizes EV_SPLITTER = some 516) (hact : ps.st.splitActual + actual < 2 ^ 32) :
+    parseEvent ps (encEvent (EV_SPLITTER, splitPayloadC data actual true c) ++ rest) =
+      .ok ((c, { st := { ps.st with splitRaw := [], splitActual := ps.st.splitActual + actual }, bytesRead := ps.bytesRead + 516 + 1 }), rest) :=
+  _root_.Peppi.parseEvent_wrapped_unknown ps c data rest actual hc hunk hd ha hsz hact
+
+/- from `Peppi.Lemmas.Wrapped` -/
+open Extracted in
+theorem parseEvent_split_any (ps : ParseState) (c : Nat) (data rest : Bytes) (actual : Nat)
+    (hd : data.length = 512) (ha : actual ≤ 512)
+    (hsz : sizeOfEv ps.st.sizes EV_SPLITTER = some 516) (hact : ps.st.splitActual + actual < 2 ^ 32) :
+    ∃ st', parseEvent ps (encEvent (EV_SPLITTER, splitPayloadC data actual false c) ++ rest) =
+      .ok ((EV_SPLITTER, { st := st', bytesRead := ps.bytesRead + 516 + 1 }), rest) ∧
+      st' = { ps.st with splitRaw := ps.st.splitRaw ++ data, splitActual := ps.st.splitActual + actual } :=
+  _root_.Peppi.parseEvent_split_any ps c data rest actual hd ha hsz hact
 
 end Peppi.Props.C08
